@@ -118,51 +118,74 @@ def expectedLog (σ0 : R) (ns0 : Option (Sched R)) (c0 : R) (cs0 : Option (Sched
   | a, b, .optStep :: ops =>
       (liveAfter c0 cs0 b, liveAfter σ0 ns0 a * liveAfter c0 cs0 b, liveAfter σ0 ns0 a)
         :: expectedLog σ0 ns0 c0 cs0 a b ops
+  | a, b, .physStep :: ops => expectedLog σ0 ns0 c0 cs0 a b ops
+
+/-- the bounds applied to the skipped physical batches (virtual steps) among `ops` -/
+def expectedPhys (c0 : R) (cs0 : Option (Sched R)) : Nat → List Op → List R
+  | _, [] => []
+  | b, .clipSched :: ops => expectedPhys c0 cs0 (b + 1) ops
+  | b, .physStep :: ops => liveAfter c0 cs0 b :: expectedPhys c0 cs0 b ops
+  | b, .noiseSched :: ops => expectedPhys c0 cs0 b ops
+  | b, .optStep :: ops => expectedPhys c0 cs0 b ops
 
 theorem iter_add_one' (p : R × Sched R) (n : Nat) :
     stepS (iter n p).1 (iter n p).2 = iter (n + 1) p := (iter_succ p n).symm
 
 /-- **scheduled_value_is_used**: under every interleaving of scheduler steps and logical optimizer
 steps, the j-th logical step is clipped with, noised with (std = σ·C) and accounted at exactly the
-values produced by the scheduler steps that precede it. -/
+values produced by the scheduler steps that precede it; and every skipped physical batch of a virtual
+step is clipped with the bound in force when IT runs (not the one cached at the start of the logical batch). -/
 theorem scheduled_value_is_used (σ0 c0 : R) (ns0 cs0 : Option (Sched R)) (ops : List Op)
-    (a b : Nat) (lg : List (R × R × R)) :
-    (Eng.run ⟨liveAfter σ0 ns0 a, liveAfter c0 cs0 b, schedAfter σ0 ns0 a, schedAfter c0 cs0 b, lg⟩ ops).log
-      = lg ++ expectedLog σ0 ns0 c0 cs0 a b ops := by
-  induction ops generalizing a b lg with
-  | nil => simp [Eng.run, expectedLog]
+    (a b : Nat) (lg : List (R × R × R)) (ph : List R) :
+    (Eng.run ⟨liveAfter σ0 ns0 a, liveAfter c0 cs0 b, schedAfter σ0 ns0 a, schedAfter c0 cs0 b, lg, ph⟩ ops).log
+      = lg ++ expectedLog σ0 ns0 c0 cs0 a b ops
+    ∧ (Eng.run ⟨liveAfter σ0 ns0 a, liveAfter c0 cs0 b, schedAfter σ0 ns0 a, schedAfter c0 cs0 b, lg, ph⟩ ops).phys
+      = ph ++ expectedPhys c0 cs0 b ops := by
+  induction ops generalizing a b lg ph with
+  | nil => simp [Eng.run, expectedLog, expectedPhys]
   | cons o ops ih =>
     cases o with
     | noiseSched =>
-      simp only [Eng.run, List.foldl_cons, expectedLog] at ih ⊢
+      simp only [Eng.run, List.foldl_cons, expectedLog, expectedPhys] at ih ⊢
       cases ns0 with
-      | none => simpa [Eng.step, schedAfter, liveAfter] using ih (a + 1) b lg
+      | none => simpa [Eng.step, schedAfter, liveAfter] using ih (a + 1) b lg ph
       | some sc =>
-        have := ih (a + 1) b lg
+        have := ih (a + 1) b lg ph
         simp only [liveAfter, schedAfter] at this ⊢
         simp only [Eng.step]
         rw [← iter_add_one'] at this
         exact this
     | clipSched =>
-      simp only [Eng.run, List.foldl_cons, expectedLog] at ih ⊢
+      simp only [Eng.run, List.foldl_cons, expectedLog, expectedPhys] at ih ⊢
       cases cs0 with
-      | none => simpa [Eng.step, schedAfter, liveAfter] using ih a (b + 1) lg
+      | none => simpa [Eng.step, schedAfter, liveAfter] using ih a (b + 1) lg ph
       | some sc =>
-        have := ih a (b + 1) lg
+        have := ih a (b + 1) lg ph
         simp only [liveAfter, schedAfter] at this ⊢
         simp only [Eng.step]
         rw [← iter_add_one'] at this
         exact this
     | optStep =>
-      simp only [Eng.run, List.foldl_cons, expectedLog, Eng.step] at ih ⊢
-      rw [ih a b]
-      simp [List.append_assoc]
+      simp only [Eng.run, List.foldl_cons, expectedLog, expectedPhys, Eng.step] at ih ⊢
+      obtain ⟨h1, h2⟩ := ih a b (lg ++ [(liveAfter c0 cs0 b, liveAfter σ0 ns0 a * liveAfter c0 cs0 b, liveAfter σ0 ns0 a)]) ph
+      exact ⟨by rw [h1]; simp [List.append_assoc], h2⟩
+    | physStep =>
+      simp only [Eng.run, List.foldl_cons, expectedLog, expectedPhys, Eng.step] at ih ⊢
+      obtain ⟨h1, h2⟩ := ih a b lg (ph ++ [liveAfter c0 cs0 b])
+      exact ⟨h1, by rw [h2]; simp [List.append_assoc]⟩
 
 /-- non-vacuity: a concrete interleaving with an exponential noise schedule (γ = 2 over ℕ) -/
 example :
-    (Eng.run (R := Nat) ⟨1, 5, some (construct (.exp 2) 1).2, none, []⟩
+    (Eng.run (R := Nat) ⟨1, 5, some (construct (.exp 2) 1).2, none, [], []⟩
         [.optStep, .noiseSched, .optStep, .noiseSched, .noiseSched, .optStep]).log
       = [(5, 5, 1), (5, 10, 2), (5, 40, 8)] := by decide
+
+/-- non-vacuity with virtual steps: a clip scheduler stepped BETWEEN the physical batches of one
+logical batch (γ = 2 over ℕ): every physical batch is clipped with the bound in force when it runs -/
+example :
+    let e := Eng.run (R := Nat) ⟨1, 5, none, some (construct (.exp 2) 5).2, [], []⟩
+        [.physStep, .clipSched, .physStep, .clipSched, .optStep]
+    e.phys = [5, 10] ∧ e.log = [(20, 20, 1)] := by decide
 
 /-! ## Save / restore (`state_dict` = `__dict__` minus the optimizer)
 
